@@ -97,7 +97,7 @@ Proof.
     assert (FO : follow_ok s R).
     { destruct s; try exact I. destruct ss as [|[] ss']; try contradiction.
       destruct W' as (Wc & _). cbn [wf_s] in Wc. subst R. cbn [flats map concat flat_s app].
-      split; [left; rewrite Wc; reflexivity|]. intros _. cbn [not_lparen]. rewrite Wc. discriminate. }
+      split; [split; [left; rewrite Wc; reflexivity|intros _; cbn [not_lparen]; rewrite Wc; discriminate]|rewrite Wc; reflexivity]. }
     destruct (IH W' st (if stmt_is_null (ast_s s) then acc else ast_s s :: acc)) as (sf & Hc & Ht & Hp & He).
     exists sf. split; [|repeat split; assumption].
     eapply (conv_bind (fun f => parseStatement f (setToks st (flat_s s ++ R)))
@@ -273,7 +273,7 @@ Proof.
     assert (FO : follow_ok s R).
     { destruct s; try exact I. destruct ss as [|[] ss']; try contradiction.
       destruct W' as (Wc & _). cbn [wf_s] in Wc. subst R. cbn [flats map concat flat_s app].
-      split; [left; rewrite Wc; reflexivity|]. intros _. cbn [not_lparen]. rewrite Wc. discriminate. }
+      split; [split; [left; rewrite Wc; reflexivity|intros _; cbn [not_lparen]; rewrite Wc; discriminate]|rewrite Wc; reflexivity]. }
     assert (NE : tok_eqb (ttype a) T_EOF = false).
     { destruct (tok_eqb (ttype a) T_EOF) eqn:X; [|reflexivity]. apply ParseTotal.tok_eqb_eq in X. rewrite X in Ga. discriminate Ga. }
     destruct (IH W' st (if stmt_is_null (ast_s s) then acc else ast_s s :: acc)) as (sf & res & Hc & He & Hp).
